@@ -42,6 +42,12 @@ type Case struct {
 	ReadSize   int    `json:"read_size"`
 	Stop       int    `json:"stop"` // stop after this many bytes; -1 = read to EOF and once more
 	NoProbe    bool   `json:"no_probe,omitempty"`
+	// Trunc > 0: the peer sends only the first Trunc bytes of the upload request and then closes. A clean end of
+	// stream may then only be reported if the whole body was delivered (end-of-stream exactly at the body's end).
+	Trunc int `json:"trunc,omitempty"`
+	// AfterFailedRelease: first another connection is served whose chunked upload breaks off in the middle of a chunk
+	// while its handler has stopped reading (releasing that body stream fails); pooled stream objects carry over.
+	AfterFailedRelease bool `json:"after_failed_release,omitempty"`
 }
 
 func build(cs Case) (stream []byte, body []byte, firstLen int) {
@@ -157,6 +163,9 @@ func (w *worker) server(maxBody int) *srvh.Server {
 
 func (w *worker) exec(c *mc.Ctx, cs Case) {
 	stream, body, firstLen := build(cs)
+	if cs.Trunc > 0 && cs.Trunc < len(stream) {
+		stream = stream[:cs.Trunc]
+	}
 	var segs [][]byte
 	switch cs.Seg {
 	case "later":
@@ -167,6 +176,12 @@ func (w *worker) exec(c *mc.Ctx, cs Case) {
 		segs = netsim.Segment(stream, []int{cs.Cut})
 	default:
 		segs = [][]byte{stream}
+	}
+	if cs.AfterFailedRelease {
+		pre := Case{Len: 5, Chunked: true, Chunks: []int{5}, ReadSize: 1, Stop: 1, NoProbe: true}
+		ps, _, _ := build(pre)
+		w.cur, w.log = &pre, &readLog{}
+		w.server(cs.MaxBody).Run([][]byte{ps[:bytes.Index(ps, []byte("\r\n\r\n"))+4+5]}, netsim.EndEOF, nil) // "...\r\n\r\n5\r\nhe"
 	}
 	w.cur, w.log = &cs, &readLog{}
 	res := w.server(cs.MaxBody).Run(segs, netsim.EndEOF, nil)
@@ -192,10 +207,24 @@ func (w *worker) exec(c *mc.Ctx, cs Case) {
 		if cs.BadTrailer != 0 {
 			enc = fmt.Sprintf("chunked-badtrailer%d", cs.BadTrailer)
 		}
+		if cs.AfterFailedRelease {
+			enc += "|after-failed-release"
+		}
 		c.Violate(fmt.Sprintf("%s|%s|limit=%s|stop=%s", kind, enc, limit, stopClass(cs)), msg, cs)
 	}
 	if res.Panic != nil {
 		fail("panic", fmt.Sprintf("panic escaped Engine.Serve: %v\n%s", res.Panic, res.Stack))
+		return
+	}
+	if cs.Trunc > 0 {
+		if len(res.Seen) == 0 {
+			return
+		}
+		if !bytes.HasPrefix(body, lg.got) {
+			fail("not-a-prefix", fmt.Sprintf("truncated upload: handler read %d bytes that are not a prefix of the %d-byte body", len(lg.got), len(body)))
+		} else if lg.eofAt >= 0 && lg.eofAt != len(body) {
+			fail("early-eof-truncated", fmt.Sprintf("the peer closed after %d of %d message bytes; the handler was told the stream ended cleanly after %d of %d body bytes", cs.Trunc, firstLen, lg.eofAt, len(body)))
+		}
 		return
 	}
 	if len(res.Seen) == 0 {
@@ -390,6 +419,21 @@ func cases(thorough bool) []Case {
 								cs := base
 								cs.Seg = seg
 								out = append(out, cs)
+								if mb == 0 && seg == "whole" && (rs == 1 || rs == 4096) {
+									cs.AfterFailedRelease = true
+									out = append(out, cs)
+								}
+							}
+							// the peer closes inside the message: every truncation point after the header block
+							if mb == 0 && (rs == 1 || rs == 4096) && stop == -1 && !tr && (ei <= 3 || thorough) {
+								st, _, fl := build(base)
+								for p := bytes.Index(st, []byte("\r\n\r\n")) + 5; p < fl; p++ {
+									for _, seg := range []string{"whole", "bytewise"} {
+										cs := base
+										cs.Seg, cs.Trunc, cs.NoProbe = seg, p, true
+										out = append(out, cs)
+									}
+								}
 							}
 							// every 1-cut for a subset that keeps the count reasonable: CL and the first two chunkings, default limit
 							if mb == 0 && rs <= 2 && (ei <= 2 || thorough) {
